@@ -3,11 +3,12 @@
 # the change there, runs the quick check of the property (or of the property named by "check_with" in
 # meta.json) against that worktree (VERIF_REPO), removes the worktree, and writes seeded/RESULTS.md.
 # /repo itself is not touched. usage: sensitivity.sh [budget_s] [id-glob]
-cd /verif
+cd "$(dirname "$0")"
+HERE=$PWD
 B=${1:-60}
 G=${2:-*}
-W=/tmp/verif-sens-wt
-O=/tmp/verif-sens-out
+W=/tmp/verif-sens-wt${SENS_TAG:-}
+O=/tmp/verif-sens-out${SENS_TAG:-}
 echo "| seeded change | checked with | verdict | fingerprint | runs until report |" > seeded/RESULTS.md.new
 echo "|---|---|---|---|---|" >> seeded/RESULTS.md.new
 for d in seeded/$G/; do
@@ -17,7 +18,7 @@ for d in seeded/$G/; do
   C=$(python3 -c "import json,sys; print(json.load(open('$d/meta.json')).get('check_with','$P'))" 2>/dev/null || echo $P)
   git -C /repo worktree remove --force $W 2>/dev/null; rm -rf $W $O
   git -C /repo worktree add -q --detach $W HEAD || { echo "worktree failed"; exit 2; }
-  if ! git -C $W apply /verif/$d/patch.diff 2>/dev/null; then
+  if ! git -C $W apply $HERE/$d/patch.diff 2>/dev/null; then
     v="patch-does-not-apply"; fp=""; runs=""
   else
     mkdir -p $O
